@@ -27,9 +27,9 @@ def _staged(*stages):
                 if name == 'values' and 'spec' not in keys:
                     continue
                 level = replay['input'].get('level')
-                if name == 'sched' and 'case' not in keys and level not in ('falsy', 'nested-names'):
+                if name == 'sched' and 'case' not in keys and level not in ('falsy', 'nested-names', 'die-in-run'):
                     continue
-                if name == 'histories' and 'history' not in keys and level != 'unreadable-entry':
+                if name == 'histories' and 'history' not in keys and level not in ('unreadable-entry', 'zero-duration', 'nested-names'):
                     continue
                 if name == 'interrupts' and level != 'tick-hang':
                     continue
@@ -50,6 +50,7 @@ def _staged(*stages):
 
 
 REGISTRY['C09'] = _staged(('values', props_values.run), ('histories', props_cache.run_histories))
+REGISTRY['C17'] = _staged(('sched', props_sched.run), ('histories', props_cache.run_histories))
 REGISTRY['C03'] = _staged(('sched', props_sched.run), ('histories', props_cache.run_histories))
 REGISTRY['C01'] = _staged(('sched', props_sched.run), ('histories', props_cache.run_histories))
 REGISTRY['C02'] = _staged(('sched', props_sched.run), ('histories', props_cache.run_histories))
